@@ -291,8 +291,10 @@ impl Prop for C13 {
 	fn strategy(tier: Tier) -> BoxedStrategy<Case> {
 		let text = |full: bool| {
 			prop_oneof![
-				gen::reference(Opt::new(Fam::Uri).with_nonutf8(true), full),
-				gen::reference(Opt::new(Fam::Iri).with_nonutf8(true), full),
+				10 => gen::reference(Opt::new(Fam::Uri).with_nonutf8(true), full),
+				10 => gen::reference(Opt::new(Fam::Iri).with_nonutf8(true), full),
+				// hosts that only a wrong grammar accepts (whatever one family accepts must be accepted by the other)
+				1 => (proptest::sample::select(gen::NEAR_VALID_HOSTS.to_vec()), proptest::sample::select(vec!["s://{}/p", "//{}", "s://u@{}:80/?q#f", "s://{}"])).prop_map(|(h, t)| t.replace("{}", h)),
 			]
 		};
 		(any::<bool>(), any::<bool>())
